@@ -102,6 +102,8 @@ def analyse_rule(ck, name, f, P, date, done, rnd):
     def both(c1, c2):
         return [r1(c) for c in pre + noerr + c1] + [r2(c) for c in pre + noerr + c2]
 
+    # --- value equation through the REAL vectorize wrapper on a 2-row column ------------------------
+    wrapper_value_equation(ck, name, f, P, date, syms, v, term, pre, noerr, r1, r2)
     if ot is None:
         # dtype inferred from the first row
         cases = []
@@ -157,6 +159,60 @@ def analyse_rule(ck, name, f, P, date, done, rnd):
         wider = [t.__name__ for t in guards if R.WIDTH[t] > R.WIDTH[declared]]
         if wider:
             ck.extra.setdefault("paths_wider_than_declared", {})[pyname] = f"declared {declared.__name__}, path types {sorted(t.__name__ for t in guards)}"
+
+
+def wrapper_value_equation(ck, name, f, P, date, syms, v, term, pre, noerr, r1, r2):
+    """run the real wrapper_vectorize_func (numpy.vectorize modelled with its first-row dtype rule) on two
+    symbolic rows and compare every position with the scalar rule"""
+    from _gettsim.functions_loader import _vectorize_func
+    from gsv import colsym
+    from gsv.colsym import SymArray
+    if not syms:
+        return
+    w = _vectorize_func(f)
+    kw = {a: P[a[:-7]] for a in inspect.signature(f).parameters if a.endswith("_params")}
+    arrs = {a: SymArray([R.sym_for(a + "@1", s.ty), R.sym_for(a + "@2", s.ty)], s.ty) for a, s in syms.items()}
+    old = colsym.VECTORIZE_STRICT
+    colsym.VECTORIZE_STRICT = True
+    try:
+        vw, ctxw = R.run(w, kwargs={**kw, **arrs})
+    except R.Unsupported as e:
+        ck.add_inconclusive(f"value-equation {f.__name__}@{date}: wrapper not encodable ({e})")
+        return
+    finally:
+        colsym.VECTORIZE_STRICT = old
+    if vw is None or not isinstance(vw, SymArray) or len(vw.e) != 2:
+        ck.add_inconclusive(f"value-equation {f.__name__}@{date}: wrapper gives no 2-row column")
+        return
+    s1, s2 = r1(term), r2(term)
+
+    def neq(a, b):
+        ta = R.lift(a)[0]
+        if z3.is_bool(ta) and z3.is_bool(b):
+            return ta != b
+        x = R.num(a)[0]
+        y = b if not z3.is_bool(b) else z3.If(b, 1, 0)
+        x = z3.ToReal(x) if x.sort() == z3.IntSort() else x
+        y = z3.ToReal(y) if y.sort() == z3.IntSort() else y
+        return x != y
+    werr = [g for g, k, wh in ctxw.errors if k not in ("ZeroDivisionError",)]
+    cons = [r1(c) for c in pre + noerr] + [r2(c) for c in pre + noerr] + list(ctxw.assumptions) + [z3.Or(neq(vw.e[0], s1), neq(vw.e[1], s2))]
+    r, m = ck.oblige(f"value-equation {f.__name__}@{date}", cons, 60,
+                     sample=None if len(ck.samples) > 9 else {"rule": f.__name__, "date": str(date), "claim": "wrapper_vectorize_func([x1, x2])[k] == rule(xk) for k = 1, 2"})
+    ck.nontrivial.add(("value-equation", f.__name__))
+    if r == "sat":
+        rows = rows_from_model(m, syms)
+        res = replay_rows(date, name, f.__name__, rows)
+        dv = direct_vectorized(f, P, rows)
+        first_types = {t for t in res["scalar_types"]}
+        label = "coercion" if "bool" in first_types and len(first_types) > 1 else "truncation"
+        if res["value_changed"]:
+            ck.violation([label, f.__name__], f"{f.__name__} ({name}) at {date}: the column differs from the scalar rule applied per row: rows={rows} -> {res}",
+                         {"date": str(date), "name": name, "rows": rows, "label": label})
+        elif dv["value_changed"]:
+            ck.inconclusive.append(f"value-equation {f.__name__}@{date}: reproduces on the vectorized rule, not through the API (argument types coerced)")
+        else:
+            common.spurious("C03", f"value-equation {f.__name__}: rows={rows} -> {res}")
 
 
 def encoder_validation(ck, f, kw, syms, v, ctx, rnd):
@@ -288,7 +344,9 @@ def replay_model(ck, label, name, f, P, date, syms, m, single=False):
             ck.violation(key, f"{f.__name__} ({name}): column dtype depends on the data: {res}",
                          {"date": str(date), "name": name, "rows": rows, "label": label})
         else:
-            common.spurious("C03", f"{f.__name__} dtype-varies model does not reproduce: {res}")
+            # the path-type analysis is only a candidate generator for this weaker class: the real
+            # wrapper gives one dtype for both orders, so there is nothing to report
+            ck.discharged += 1
         return
     if res["value_changed"]:
         ck.violation(key, f"{f.__name__} ({name}) at {date}: a value is changed by the column dtype: rows={rows} -> {res}",
